@@ -203,6 +203,7 @@ pub async fn scenario(line: &str) -> String {
     "lifecycle" => lifecycle(&p).await,
     "churn" => churn(&p).await,
     "fanin" => fanin(&p).await,
+    "secure" => secure(&p).await,
     "bigmulti" => bigmulti(&p).await,
     "faultlocal" => faultlocal(&p).await,
     _ => "bad-op".to_string(),
@@ -2414,4 +2415,323 @@ async fn fanin(p: &[&str]) -> String {
       silent.len()
     )
   }
+}
+
+
+// ---------------------------------------------------------------------------------------------------------------
+// C18: encrypted connections through a recording / tampering proxy
+// ---------------------------------------------------------------------------------------------------------------
+
+struct SecKeys {
+  server_sk: Vec<u8>,
+  server_pk: Vec<u8>,
+  client_sk: Vec<u8>,
+}
+
+fn sec_keys(mech: &str) -> SecKeys {
+  if mech == "curve" {
+    use dryoc::types::Bytes as _;
+    let s = dryoc::keypair::StackKeyPair::r#gen();
+    let c = dryoc::keypair::StackKeyPair::r#gen();
+    SecKeys { server_sk: s.secret_key.as_slice().to_vec(), server_pk: s.public_key.as_slice().to_vec(), client_sk: c.secret_key.as_slice().to_vec() }
+  } else {
+    let b = || snow::Builder::new("Noise_XX_25519_ChaChaPoly_BLAKE2s".parse().unwrap()).generate_keypair().unwrap();
+    let s = b();
+    let c = b();
+    SecKeys { server_sk: s.private, server_pk: s.public, client_sk: c.private }
+  }
+}
+
+async fn sec_socket(ctx: &Context, ty: SocketType, mech: &str, server: bool, k: &SecKeys, hb: i32) -> Result<Socket, ZmqError> {
+  let s = ctx.socket(ty)?;
+  if mech == "curve" {
+    if server {
+      set_i32(&s, o::CURVE_SERVER, 1).await?;
+      s.set_option_raw(o::CURVE_SECRET_KEY, &k.server_sk).await?;
+    } else {
+      s.set_option_raw(o::CURVE_SECRET_KEY, &k.client_sk).await?;
+      s.set_option_raw(o::CURVE_SERVER_KEY, &k.server_pk).await?;
+    }
+  } else {
+    s.set_option_raw(o::NOISE_XX_STATIC_SECRET_KEY, if server { &k.server_sk } else { &k.client_sk }).await?;
+    if !server {
+      s.set_option_raw(o::NOISE_XX_REMOTE_STATIC_PUBLIC_KEY, &k.server_pk).await?;
+    }
+    set_i32(&s, o::NOISE_XX_ENABLED, 1).await?;
+  }
+  if hb > 0 {
+    set_i32(&s, o::HEARTBEAT_IVL, hb).await?;
+    set_i32(&s, o::HEARTBEAT_TIMEOUT, hb * 4).await?;
+  }
+  Ok(s)
+}
+
+#[derive(Clone, Default)]
+struct ProxyCtl {
+  armed: std::sync::Arc<std::sync::atomic::AtomicBool>,
+  captured: std::sync::Arc<std::sync::Mutex<Vec<u8>>>,        // client -> server, everything
+  data_records: std::sync::Arc<std::sync::Mutex<Vec<Vec<u8>>>>, // client -> server records seen after arming (header included)
+}
+
+/// accepts ONE connection on `listener`, connects to `server_addr`, pumps both ways; the client->server direction is
+/// recorded and, once armed, parsed into `[u16 len][ciphertext]` records to which `op` is applied
+async fn run_proxy(listener: TcpListener, server_addr: String, op: String, ctl: ProxyCtl) {
+  let (client, _) = match listener.accept().await {
+    Ok(x) => x,
+    Err(_) => return,
+  };
+  let server = match TcpStream::connect(&server_addr).await {
+    Ok(x) => x,
+    Err(_) => return,
+  };
+  let _ = client.set_nodelay(true);
+  let _ = server.set_nodelay(true);
+  let (mut cr, mut cw) = client.into_split();
+  let (mut sr, mut sw) = server.into_split();
+  let back = tokio::spawn(async move {
+    let mut buf = vec![0u8; 65536];
+    loop {
+      match sr.read(&mut buf).await {
+        Ok(0) | Err(_) => break,
+        Ok(n) => {
+          if cw.write_all(&buf[..n]).await.is_err() {
+            break;
+          }
+        }
+      }
+    }
+    let _ = cw.shutdown().await;
+  });
+  let parts: Vec<String> = op.split(':').map(|x| x.to_string()).collect();
+  let kind = parts[0].clone();
+  let target: usize = parts.get(1).and_then(|x| x.parse().ok()).unwrap_or(0);
+  let byte: usize = parts.get(2).and_then(|x| x.parse().ok()).unwrap_or(0);
+  let mut buf = vec![0u8; 65536];
+  let mut pending: Vec<u8> = Vec::new();
+  let mut held: Option<Vec<u8>> = None;
+  let mut idx = 0usize;
+  'pump: loop {
+    let n = match cr.read(&mut buf).await {
+      Ok(0) | Err(_) => break,
+      Ok(n) => n,
+    };
+    ctl.captured.lock().unwrap().extend_from_slice(&buf[..n]);
+    if !ctl.armed.load(std::sync::atomic::Ordering::Acquire) {
+      if sw.write_all(&buf[..n]).await.is_err() {
+        break;
+      }
+      continue;
+    }
+    pending.extend_from_slice(&buf[..n]);
+    loop {
+      if pending.len() < 2 {
+        break;
+      }
+      let len = u16::from_be_bytes([pending[0], pending[1]]) as usize;
+      if pending.len() < 2 + len {
+        break;
+      }
+      let mut rec: Vec<u8> = pending.drain(..2 + len).collect();
+      ctl.data_records.lock().unwrap().push(rec.clone());
+      let mut out: Vec<Vec<u8>> = Vec::new();
+      if idx == target {
+        match kind.as_str() {
+          "flip" => {
+            let pos = 2 + (byte % len.max(1));
+            if pos < rec.len() {
+              rec[pos] ^= 0x01;
+            }
+            out.push(rec);
+          }
+          "drop" => {}
+          "dup" => {
+            out.push(rec.clone());
+            out.push(rec);
+          }
+          "swap" => {
+            held = Some(rec);
+          }
+          "cut" => {
+            let keep = byte.min(rec.len().saturating_sub(1)).max(1);
+            let _ = sw.write_all(&rec[..keep]).await;
+            break 'pump;
+          }
+          _ => out.push(rec),
+        }
+      } else if idx == target + 1 && kind == "swap" {
+        out.push(rec);
+        if let Some(h) = held.take() {
+          out.push(h);
+        }
+      } else {
+        out.push(rec);
+      }
+      idx += 1;
+      for r in out {
+        if sw.write_all(&r).await.is_err() {
+          break 'pump;
+        }
+      }
+    }
+  }
+  let _ = sw.shutdown().await;
+  back.abort();
+}
+
+fn secret_body(i: usize, size: usize) -> Vec<u8> {
+  let tag = format!("SECRET-{:04}-PLAINTEXT-", i).into_bytes();
+  let mut b = Vec::with_capacity(size.max(tag.len()));
+  while b.len() < size.max(tag.len()) {
+    b.extend_from_slice(&tag);
+  }
+  b.truncate(size.max(tag.len()));
+  b
+}
+
+/// `secure <curve|noise> honest <size;size;..> [hb=<ms>]` | `secure <mech> tamper <flip:r:b|drop:r|dup:r|swap:r|cut:r:b>` |
+/// `secure <mech> twice`
+/// A PUSH client and a PULL server with the mechanism configured through the public options, connected through a proxy
+/// that records the client->server bytes. honest: every message arrives intact and in order and no plaintext is visible
+/// on the wire (with `hb`: heartbeats enabled and an idle pause in the middle). tamper: after the first message, the
+/// proxy mutates the stream of encrypted records; what the server delivers must be a prefix of what the client sent.
+/// twice: two sessions between the same key pairs carrying the same first message must not put the same bytes on the wire.
+async fn secure(p: &[&str]) -> String {
+  let mech = p[1].to_string();
+  let mode = p[2];
+  let keys = sec_keys(&mech);
+  match mode {
+    "twice" => {
+      let mut firsts: Vec<Vec<u8>> = Vec::new();
+      for _ in 0..2 {
+        match secure_session(&mech, &keys, &[100, 100], 0, "none").await {
+          Ok(r) => {
+            if r.delivered.len() != 3 {
+              return format!("ORACLE-FAIL key=secure-undecodable only {} of 3 messages arrived", r.delivered.len());
+            }
+            firsts.push(r.records.get(0).cloned().unwrap_or_default());
+          }
+          Err(e) => return e,
+        }
+      }
+      if firsts[0].is_empty() || firsts[1].is_empty() {
+        return "setup-error no data record captured".into();
+      }
+      if firsts[0] == firsts[1] {
+        "ORACLE-FAIL key=secure-repeats two sessions between the same key pairs encrypted the same plaintext to the same bytes".into()
+      } else {
+        "secure=ok".into()
+      }
+    }
+    "honest" => {
+      let sizes: Vec<usize> = p[3].split(';').filter_map(|x| x.parse().ok()).collect();
+      let hb: i32 = p.get(4).and_then(|x| x.strip_prefix("hb=")).and_then(|x| x.parse().ok()).unwrap_or(0);
+      match secure_session(&mech, &keys, &sizes, hb, "none").await {
+        Ok(r) => {
+          if r.leaked {
+            return "ORACLE-FAIL key=secure-cleartext an application payload is visible in the bytes on the wire".into();
+          }
+          let want: Vec<usize> = (0..sizes.len() + 1).collect();
+          if r.delivered != want {
+            return format!(
+              "ORACLE-FAIL key=secure-undecodable sent {} messages (sizes {:?}{}), the peer delivered {:?}{}",
+              sizes.len() + 1,
+              sizes,
+              if hb > 0 { format!(", heartbeats every {} ms", hb) } else { String::new() },
+              r.delivered,
+              if r.damaged { " and a damaged one" } else { "" }
+            );
+          }
+          "secure=ok".into()
+        }
+        Err(e) => e,
+      }
+    }
+    "tamper" => {
+      let op = p[3];
+      match secure_session(&mech, &keys, &[40, 40, 40, 40, 40, 40], 0, op).await {
+        Ok(r) => {
+          let is_prefix = r.delivered.iter().enumerate().all(|(i, d)| *d == i);
+          if r.damaged || !is_prefix {
+            return format!("ORACLE-FAIL key=secure-tamper after `{}` the peer delivered {:?}{} (must be a prefix of 0..7)", op, r.delivered, if r.damaged { " plus a damaged message" } else { "" });
+          }
+          "secure=ok".into()
+        }
+        Err(e) => e,
+      }
+    }
+    _ => "bad-op".into(),
+  }
+}
+
+struct SecResult {
+  delivered: Vec<usize>,
+  damaged: bool,
+  leaked: bool,
+  records: Vec<Vec<u8>>,
+}
+
+/// message 0 (40 bytes) is sent first and awaited (handshake over); then the proxy is armed and the messages of `sizes`
+/// follow one at a time; with `hb` > 0 the sender pauses 3*hb in the middle
+async fn secure_session(mech: &str, keys: &SecKeys, sizes: &[usize], hb: i32, op: &str) -> Result<SecResult, String> {
+  let ctx = Context::new().expect("ctx");
+  let server = sec_socket(&ctx, SocketType::Pull, mech, true, keys, hb).await.map_err(|e| format!("setup-error server {}", err_class(&e)))?;
+  let client = sec_socket(&ctx, SocketType::Push, mech, false, keys, hb).await.map_err(|e| format!("setup-error client {}", err_class(&e)))?;
+  let _ = set_i32(&server, o::RCVTIMEO, 1500).await;
+  let _ = set_i32(&client, o::SNDTIMEO, 1500).await;
+  let _ = set_i32(&client, o::RECONNECT_IVL, 60000).await; // one session only: no silent re-handshake behind the proxy
+  server.bind("tcp://127.0.0.1:0").await.map_err(|_| "setup-error bind".to_string())?;
+  let server_addr = last_endpoint(&server).await.trim_start_matches("tcp://").to_string();
+  let l = TcpListener::bind("127.0.0.1:0").await.unwrap();
+  let proxy_addr = l.local_addr().unwrap();
+  let ctl = ProxyCtl::default();
+  let proxy = tokio::spawn(run_proxy(l, server_addr, op.to_string(), ctl.clone()));
+  client.connect(&format!("tcp://{}", proxy_addr)).await.map_err(|_| "setup-error connect".to_string())?;
+  let mut delivered: Vec<usize> = Vec::new();
+  let mut damaged = false;
+  let classify = |m: &Msg, delivered: &mut Vec<usize>, damaged: &mut bool, all: &[Vec<u8>]| {
+    let b = m.data().unwrap_or(&[]);
+    match all.iter().position(|x| x.as_slice() == b) {
+      Some(i) => delivered.push(i),
+      None => *damaged = true,
+    }
+  };
+  let mut all: Vec<Vec<u8>> = vec![secret_body(0, 40)];
+  for (i, s) in sizes.iter().enumerate() {
+    all.push(secret_body(i + 1, *s));
+  }
+  // message 0: the handshake is over once it has arrived
+  if client.send(Msg::from_vec(all[0].clone())).await.is_err() {
+    return Err("setup-error first send".into());
+  }
+  let _ = set_i32(&server, o::RCVTIMEO, 4000).await;
+  match server.recv().await {
+    Ok(m) => classify(&m, &mut delivered, &mut damaged, &all),
+    Err(_) => return Err("setup-error the first message did not arrive (handshake)".into()),
+  }
+  let _ = set_i32(&server, o::RCVTIMEO, 1200).await;
+  tokio::time::sleep(Duration::from_millis(50)).await;
+  ctl.armed.store(true, std::sync::atomic::Ordering::Release);
+  for (i, body) in all.iter().enumerate().skip(1) {
+    if hb > 0 && i == 1 + sizes.len() / 2 {
+      tokio::time::sleep(Duration::from_millis(3 * hb as u64 + 100)).await;
+    }
+    if client.send(Msg::from_vec(body.clone())).await.is_err() {
+      break;
+    }
+    tokio::time::sleep(Duration::from_millis(25)).await;
+  }
+  loop {
+    match server.recv().await {
+      Ok(m) => classify(&m, &mut delivered, &mut damaged, &all),
+      Err(_) => break,
+    }
+  }
+  let captured = ctl.captured.lock().unwrap().clone();
+  let leaked = captured.windows(7).any(|w| w == b"SECRET-");
+  let records = ctl.data_records.lock().unwrap().clone();
+  let _ = tokio::time::timeout(Duration::from_secs(3), client.close()).await;
+  let _ = tokio::time::timeout(Duration::from_secs(3), server.close()).await;
+  let _ = tokio::time::timeout(Duration::from_secs(12), ctx.term()).await;
+  proxy.abort();
+  Ok(SecResult { delivered, damaged, leaked, records })
 }
